@@ -6,7 +6,7 @@ SPEC = {
     'theorems': ['C36_reply_to_own_request', 'C36_responder_holds_current_request', 'C36_at_most_once_delivery',
                  'C36_reply_without_discipline_refuted', 'C36_discipline_satisfiable',
                  'C36_after_close_errors', 'C36_queue_close_closes_topics',
-                 'C36_close_call_closes_refuted', 'C36_close_call_closes_partial',
+                 'C36_close_call_closes', 'C36_close_call_sets_closed', 'C36_never_subscribed_client_closes',
                  'C36_after_close_no_block_forever', 'C36_after_close_parked_send_returns_error',
                  'C36_parked_low_sender_woken', 'C36_parked_high_sender_woken', 'C36_bulk_fill_agrees'],
     'allowed_axioms': [],
@@ -20,11 +20,11 @@ SPEC = {
             'and records which parked calls returned and len(high), len(low) per topic, len(recv) per client; at the end the '
             'sends still parked (looked at again 3 s after the last call when the queue was closed). Topics are preset through the hook with '
             'capacities high 1-3 / low 1-4 (recv is 5 as in the code); one scenario uses the real 64/40960 channels. 1-2 topics, '
-            '2-4 clients, 6-40 calls, generated online from the API-level view. Streams: guarded (discipline kept, '
-            'only subscribed clients are closed: every spec failure is a violation), unrestricted (may hit '
-            'finding 2), undisciplined (FreeMessage of messages still in flight: clauses 1-2 are not promised), witness-* '
+            '2-4 clients, 6-40 calls, generated online from the API-level view. Streams: disciplined (discipline kept; '
+            'no open finding, every spec failure is a violation), '
+            'undisciplined (FreeMessage of messages still in flight: clauses 1-2 are not promised), witness-* '
             '(fixed: parked low wait-forever sender woken by close in 5 shapes incl. real capacities, high sender woken by close, '
-            'round trip with recycling, stale reply through a recycled message). (b) concurrent: several requesters/responders on 1-3 topics with random '
+            'Close of a never-subscribed client, round trip with recycling, stale reply through a recycled message). (b) concurrent: several requesters/responders on 1-3 topics with random '
             'delays, timeouts, recycling and closes; per-participant logs merged; a monitor checks clauses 1-3 on the merged log '
             '(a test, not compared with the LTS). non-trivial = at least one message was enqueued or a reply taken; distinct = '
             'distinct Gallina case terms',
@@ -55,13 +55,12 @@ SPEC = {
         'after close, Wait is shown to return for messages whose topic is closed (all topics that existed at Queue.Close, '
         'C36_queue_close_closes_topics) or for callers whose own client is closed; a Wait on a message of a topic first used after '
         'Queue.Close can block (such a message cannot have been sent)',
-        'open finding 2: Client.Close of a client that never subscribed does nothing (C36_close_call_closes_refuted)',
     ],
     'manifest': {
-        'level_text': 'partial: reply/at-most-once proved for all interleavings of disciplined traces of the LTS; after-close '
+        'level_text': 'reply/at-most-once proved for all interleavings of disciplined traces of the LTS (refuted without the FreeMessage discipline, which is the API contract); after-close '
                       'errors proved; "no send blocks for ever after close" proved at full strength (every parked send returns '
                       'an error once the queue is closed; finding 1 fixed); '
-                      '"Close closes the client" refuted for never-subscribed clients (finding 2). Tie to the Go code by '
+                      '"a returned Close call closes the client" proved for every client, subscribed or not (finding 2 fixed). Tie to the Go code by '
                       'scripted event-by-event correspondence; the concurrent runs are a test',
         'level_note': 'hand-written LTS, event granularity and pump atomicity as listed in the trusted base; blocking observed '
                       'through goroutine states; hook file for small capacities',
